@@ -32,11 +32,20 @@ KINDS = {
 }
 FORMS = ("vector", "view", "donor", "rewritten", "table", "row")
 SCALARS = [2, 2.5, True, "z", None, 1j, D1, T1, 2 ** 60, b"q", 0, -1]
+HUGE_OPS = ("pow", "lshift", "mul")          # operators whose result size explodes with a huge right operand
 BINOPS = ["add", "sub", "mul", "truediv", "floordiv", "mod", "pow", "eq", "ne", "lt", "le", "gt", "ge", "and_", "or_", "xor", "lshift", "rshift", "matmul"]
 
 
 def is_vec(x):
-    return hasattr(x, "_underlying") and hasattr(x, "_dtype")
+    from serif import Vector
+    return isinstance(x, Vector)
+
+
+def holds_vectors_by_reference(r):
+    """a non-table vector whose elements are vectors (ragged stacking, Vector([a, b])) keeps the very objects it was given,
+    like an object vector keeps a list: a later write to such an element is visible through it by construction.  Not judged
+    (DESIGN 13.5): the statement's derivations are tables, copies, slices, selections, joins and sorts."""
+    return is_vec(r) and not is_table(r) and not is_row(r) and any(is_vec(e) for e in r._underlying)
 
 
 def is_row(x):
@@ -118,7 +127,11 @@ def derivations(kind, form):
     tab = form == "table"
     for name in BINOPS:
         op = getattr(operator, name)
+        if name in HUGE_OPS and kind == "bigint":
+            continue                      # (2**53+1) ** (2**53+1) does not terminate in Python either
         for si, s in enumerate(SCALARS):
+            if name in HUGE_OPS and isinstance(s, int) and abs(s) > 100:
+                continue
             add(f"x {name} scalar:{type(s).__name__}", lambda sc, op=op, s=s: op(sc.x, s))
             add(f"scalar:{type(s).__name__} {name} x", lambda sc, op=op, s=s: op(s, sc.x))
         for k2 in ("int", "float?", "str", "date", "complex", "object"):
@@ -319,9 +332,10 @@ def all_derivations(kind, form, ykind):
 
 def unit_purity(unit):
     """unit = ('purity', kind, form, ykind, level) ; level 'full' also runs the deferred / backwrite oracles for every write"""
-    _, kind, form, ykind, level = unit
+    _, kind, form, ykind, level = unit[:5]
+    only = unit[5] if len(unit) > 5 else None         # replay: just this derivation
     agg = Agg()
-    ds = all_derivations(kind, form, ykind)
+    ds = [d for d in all_derivations(kind, form, ykind) if only is None or d[0] == only]
     ws = writes(form)
     for label, fn, live in ds:
         case = {"operand": kind, "form": form, "second_operand": ykind, "derivation": label}
@@ -347,6 +361,12 @@ def unit_purity(unit):
         derived = is_vec(r) or isinstance(r, (list, tuple))
         if not derived:
             continue
+        try:
+            if holds_vectors_by_reference(r):
+                agg.skipped["result-holds-its-operands-as-elements"] += 1
+                continue
+        except Exception:
+            pass                          # e.g. a row taken at an out-of-range index raises when it is read
         # ---- backwrite: a write into the result changes no scenario object (unless the result is the table's own column)
         if not live and result_write(r):
             agg.nontrivial += 1; agg.transitions += 1
